@@ -67,10 +67,11 @@ Verdict(e, S, post) ==
                                    LET ok == \A j \in 1..Len(e.ks) : S.idx[e.x][e.ks[j]] # None
                                    IN e.ok = ok /\ (ok => e.vs = [j \in 1..Len(e.ks) |-> S.idx[e.x][e.ks[j]]]))
         [] e.op = "iter" ->
-                Clause("iterate_agrees_with_the_sorted_map",
-                       e.visited = WithVals(S.idx[e.x], IterKeys(S.idx[e.x], e.pfx, e.start, e.hs, e.skip, e.rev, e.kind, e.at)))
-             \o Clause("iterate_returns_the_callback_error",
-                       e.cberr = IterErr(S.idx[e.x], e.pfx, e.start, e.hs, e.skip, e.rev, e.kind, e.at))
+                LET agrees == e.visited = WithVals(S.idx[e.x], IterKeys(S.idx[e.x], e.pfx, e.start, e.hs, e.skip, e.rev, e.kind, e.at))
+                IN    Clause("iterate_agrees_with_the_sorted_map", agrees)
+                   \* (whether the callback ever ran its at-th time follows from the visit sequence)
+                   \o Clause("iterate_returns_the_callback_error",
+                             agrees => e.cberr = IterErr(S.idx[e.x], e.pfx, e.start, e.hs, e.skip, e.rev, e.kind, e.at))
         [] e.op = "first" -> Clause("first_is_the_least_item_with_the_prefix",
                                     LET f == FirstOf(S.idx[e.x], e.pfx)
                                     IN e.found = (f # NoKey) /\ (e.found => e.k = f /\ e.v = S.idx[e.x][f]))
